@@ -17,12 +17,16 @@ import (
 	"os"
 	"os/exec"
 	"path/filepath"
+	"regexp"
 	"runtime"
 	"sort"
+	"strconv"
 	"strings"
 	"sync"
 	"sync/atomic"
 	"time"
+	"unicode"
+	"unicode/utf8"
 
 	"verif/harness/internal/gen"
 	"verif/harness/internal/impl"
@@ -30,11 +34,11 @@ import (
 
 type op struct {
 	impl.Op
-	Fam   string
-	Group int    // ops of one argument tuple share a group
-	Std   string // expected result from the standard library (C02/C20), "" if none
+	Fam    string
+	Group  int    // ops of one argument tuple share a group
+	Std    string // expected result from the standard library (C02/C20), "" if none
 	StdRaw string // the standard library's answer on the raw arguments: oracle for the Lean models of the namesakes
-	NoS   bool   // the specification does not apply to this op (outside the property's domain)
+	NoS    bool   // the specification does not apply to this op (outside the property's domain)
 }
 
 type res struct {
@@ -270,7 +274,83 @@ wait:
 		}
 	}
 	viols = append(viols, groupChecks(*flagProp, ops, results)...)
+	// a table function disagrees with its model: look for an input on which an exported function goes wrong
+	if more := tableFollowUp(ops, results, viols); len(more) > 0 {
+		out := make([]res, len(more))
+		var h atomic.Int64
+		h.Store(-1)
+		if err := runShard(more, out, &h, 0); err != nil {
+			infra("%v", err)
+		}
+		for i, o := range more {
+			r := out[i]
+			if r.I == "PANIC" {
+				viols = append(viols, violation{Kind: "PANIC", Op: o.Line(), I: r.I, A: r.A, S: r.S, Fam: o.Fam})
+			} else if r.S != "-" && r.S != r.I {
+				viols = append(viols, violation{Kind: "I!=S", Op: o.Line(), I: r.I, A: r.A, S: r.S, Fam: o.Fam})
+			}
+		}
+		ops = append(ops, more...)
+		results = append(results, out...)
+	}
 	report(viols, ops, results, start, scale)
+}
+
+// tableFollowUp: for every code point on which a table function of the real code disagrees with the model,
+// pair it with every number either side returned (candidate fold partners) and build searches and comparisons
+// in which that wrong (or missing) equivalence decides the result.  The specification then says who is right.
+func tableFollowUp(ops []op, results []res, viols []violation) []op {
+	isTable := map[string]bool{"CaseFold": true, "FoldMap": true, "FoldMapExcludingUpperLower": true, "ToUpperLower": true}
+	type pr struct{ r, v rune }
+	seen := map[pr]bool{}
+	var pairs []pr
+	num := regexp.MustCompile(`-?\d+`)
+	for i, o := range ops {
+		if !isTable[o.Fn] || results[i].A == "-" || results[i].A == results[i].I || len(o.Args) == 0 {
+			continue
+		}
+		r64, err := strconv.ParseInt(o.Args[0], 10, 64)
+		if err != nil || r64 < 0 || r64 > unicode.MaxRune || !utf8.ValidRune(rune(r64)) {
+			continue
+		}
+		for _, tok := range num.FindAllString(results[i].I+" "+results[i].A, -1) {
+			v, err := strconv.ParseInt(tok, 10, 64)
+			if err != nil || v <= 1 || v > unicode.MaxRune || !utf8.ValidRune(rune(v)) || v == r64 {
+				continue
+			}
+			k := pr{rune(r64), rune(v)}
+			if !seen[k] && len(pairs) < 48 {
+				seen[k] = true
+				pairs = append(pairs, k)
+			}
+		}
+	}
+	var out []op
+	sfx := impl.CfgSuffix()
+	add := func(fn, pkg string, args ...string) {
+		out = append(out, op{Op: impl.Op{Fn: fn, Cfg: pkg + sfx, Args: args}, Fam: "table-follow-up", Group: -1})
+	}
+	for _, k := range pairs {
+		for _, sw := range []bool{false, true} {
+			a, b := string(k.r), string(k.v)
+			if sw {
+				a, b = b, a
+			}
+			hays := []string{b, "__" + b + "bc", "_a" + b + "c", "xxxxxxxxxxxxxxxxx" + b + "bc", b + b}
+			needles := []string{a, a + "bc", "a" + a + "c", a + "bc", a + a}
+			for _, pkg := range []string{"s", "b"} {
+				for j := range hays {
+					h, n := impl.Hex([]byte(hays[j])), impl.Hex([]byte(needles[j]))
+					for _, fn := range []string{"Index", "LastIndex", "Contains", "Count", "EqualFold", "Compare", "HasPrefix", "HasSuffix", "IndexAny", "LastIndexAny"} {
+						add(fn, pkg, h, n)
+					}
+					r, _ := utf8.DecodeRuneInString(a)
+					add("IndexRune", pkg, h, strconv.Itoa(int(r)))
+				}
+			}
+		}
+	}
+	return out
 }
 
 func readOps(path string) []op {
